@@ -13,12 +13,12 @@ had already returned, and what it emitted -/
 def opParse : Tok String := do
   let k ← Tok.next
   let done ← Tok.bool; let tclosed ← Tok.bool; let rx ← Tok.bool; let cleanup ← Tok.bool; let after ← Tok.bool
-  let nsend ← Tok.nat; let ncb ← Tok.nat
+  let nsend ← Tok.nat; let ncb ← Tok.nat; let tcd ← Tok.optNat
   match kindOf k with
-  | some kind => pure (accepts kind done tclosed rx cleanup after nsend ncb)
+  | some kind => pure (accepts kind done tclosed rx cleanup after nsend ncb (tcd.getD 1))
   | none => failure
 
-/-- `c17run <n> {kind done tclosed rxclosed cleanup after nsend ncb}` → `ok` / `reject:…` per block, `;`-separated -/
+/-- `c17run <n> {kind done tclosed rxclosed cleanup after nsend ncb tcmin|-}` → `ok` / `reject:…` per block, `;`-separated -/
 def c17run (toks : List String) : String :=
   match (do let vs ← Tok.list opParse; Tok.done; pure vs : Tok (List String)).run toks with
   | some (vs, _) => ";".intercalate vs
